@@ -261,11 +261,32 @@ pub struct Flaky<'a> {
     calls: std::cell::Cell<u32>,
     first: &'a [u8],
     later: &'a [u8],
+    panics: bool,
 }
+
+/// Payload of the simulated caller's own panics (raised with `resume_unwind`, so no panic hook runs).
+pub struct CallerCrash;
 
 impl<'a> Flaky<'a> {
     pub fn new(first: &'a [u8], later: &'a [u8]) -> Self {
-        Self { calls: std::cell::Cell::new(0), first, later }
+        Self { calls: std::cell::Cell::new(0), first, later, panics: false }
+    }
+    /// The same shard as it was before anybody looked at it.
+    pub fn fresh_copy(&self) -> Flaky<'a> {
+        Self { calls: std::cell::Cell::new(0), first: self.first, later: self.later, panics: self.panics }
+    }
+    /// A shard whose `as_ref()` panics the first time it is called (a bug in the caller's type, caught by the caller).
+    pub fn panicking(data: &'a [u8]) -> Self {
+        Self { calls: std::cell::Cell::new(0), first: data, later: data, panics: true }
+    }
+}
+
+/// Runs `f`; `None` if the simulated caller's panic came out of it (any other panic is passed on).
+pub fn catch_caller_crash<T>(f: impl FnOnce() -> T) -> Option<T> {
+    match std::panic::catch_unwind(std::panic::AssertUnwindSafe(f)) {
+        Ok(v) => Some(v),
+        Err(p) if p.is::<CallerCrash>() => None,
+        Err(p) => std::panic::resume_unwind(p),
     }
 }
 
@@ -273,6 +294,9 @@ impl AsRef<[u8]> for Flaky<'_> {
     fn as_ref(&self) -> &[u8] {
         let n = self.calls.get();
         self.calls.set(n + 1);
+        if n == 0 && self.panics {
+            std::panic::resume_unwind(Box::new(CallerCrash));
+        }
         if n == 0 {
             self.first
         } else {
@@ -391,7 +415,18 @@ pub fn enc_new(
     work: Option<EncoderWork>,
 ) -> Result<Box<dyn DynEncoder>, Error> {
     match kind.layer {
-        Layer::Rs => Ok(Box::new(ReedSolomonEncoder::new(k, r, b)?)),
+        Layer::Rs => {
+            let rs = ReedSolomonEncoder::new(k, r, b);
+            let twin = DefaultRateEncoder::new(k, r, b, DefaultEngine::new(), None);
+            if rs.as_ref().err() != twin.as_ref().err() {
+                note_divergence(format!("new({k}, {r}, {b}): ReedSolomonEncoder -> {:?}, DefaultRateEncoder<DefaultEngine> -> {:?}", rs.as_ref().map(|_| ()), twin.as_ref().map(|_| ())));
+            }
+            match (rs, twin) {
+                (Ok(rs), Ok(twin)) => Ok(Box::new(RsEncTwin { rs, twin })),
+                (Ok(rs), Err(_)) => Ok(Box::new(rs)),
+                (Err(e), _) => Err(e),
+            }
+        }
         Layer::Default if via_rate(k, r, b) => with_engine!(kind.engine, E => enc_new_r::<E, DefaultRate<E>>(k, r, b, work)),
         Layer::High if via_rate(k, r, b) => with_engine!(kind.engine, E => enc_new_r::<E, HighRate<E>>(k, r, b, work)),
         Layer::Low if via_rate(k, r, b) => with_engine!(kind.engine, E => enc_new_r::<E, LowRate<E>>(k, r, b, work)),
@@ -508,6 +543,149 @@ impl DynDecoder for ReedSolomonDecoder {
     }
 }
 
+
+// ======================================================================
+// API LAYER TWINS (C09: ReedSolomonEncoder / ReedSolomonDecoder are DefaultRate codecs on DefaultEngine)
+
+thread_local! {
+    static LAYER_DIVERGENCE: std::cell::RefCell<Option<String>> = const { std::cell::RefCell::new(None) };
+}
+
+fn note_divergence(what: String) {
+    simcore::countalloc::unmeasured(|| LAYER_DIVERGENCE.with(|d| {
+        let mut d = d.borrow_mut();
+        if d.is_none() {
+            *d = Some(what);
+        }
+    }));
+}
+
+/// First call on which a `ReedSolomon*` wrapper and the `DefaultRate*<DefaultEngine>` codec fed with the same calls
+/// answered differently (cleared by reading).
+pub fn take_layer_divergence() -> Option<String> {
+    LAYER_DIVERGENCE.with(|d| d.borrow_mut().take())
+}
+
+pub fn layer_divergence_pending() -> bool {
+    LAYER_DIVERGENCE.with(|d| d.borrow().is_some())
+}
+
+/// `ReedSolomonEncoder` plus the codec it is documented to be, driven by the same calls.
+struct RsEncTwin {
+    rs: ReedSolomonEncoder,
+    twin: DefaultRateEncoder<DefaultEngine>,
+}
+
+impl DynEncoder for RsEncTwin {
+    fn add(&mut self, shard: &[u8]) -> Result<(), Error> {
+        let a = self.rs.add_original_shard(shard);
+        let b = simcore::countalloc::unmeasured(|| self.twin.add_original_shard(shard));
+        if a != b {
+            note_divergence(format!("add_original_shard: ReedSolomonEncoder -> {a:?}, DefaultRateEncoder<DefaultEngine> -> {b:?}"));
+        }
+        a
+    }
+    fn add_flaky(&mut self, shard: &Flaky) -> Result<(), Error> {
+        let copy = shard.fresh_copy();
+        let a = self.rs.add_original_shard(shard);
+        let b = simcore::countalloc::unmeasured(|| self.twin.add_original_shard(&copy));
+        if a != b {
+            note_divergence(format!("add_original_shard(impure shard): ReedSolomonEncoder -> {a:?}, DefaultRateEncoder<DefaultEngine> -> {b:?}"));
+        }
+        a
+    }
+    fn encode(&mut self) -> Result<EncoderResult<'_>, Error> {
+        let Self { rs, twin } = self;
+        let b: Result<Vec<Vec<u8>>, Error> = simcore::countalloc::unmeasured(|| twin.encode().map(|res| res.recovery_iter().map(<[u8]>::to_vec).collect()));
+        let a = rs.encode();
+        match (&a, &b) {
+            (Ok(x), Ok(y)) => {
+                if simcore::countalloc::unmeasured(|| x.recovery_iter().map(<[u8]>::to_vec).collect::<Vec<_>>() != *y) {
+                    note_divergence("encode: ReedSolomonEncoder and DefaultRateEncoder<DefaultEngine> return different recovery shards".into());
+                }
+            }
+            (Err(x), Err(y)) if x == y => {}
+            _ => note_divergence(format!("encode: ReedSolomonEncoder -> {:?}, DefaultRateEncoder<DefaultEngine> -> {:?}", a.as_ref().map(|_| "Ok"), b.as_ref().map(|_| "Ok"))),
+        }
+        a
+    }
+    fn reset(&mut self, k: usize, r: usize, b: usize) -> Result<(), Error> {
+        let a = self.rs.reset(k, r, b);
+        let t = simcore::countalloc::unmeasured(|| self.twin.reset(k, r, b));
+        if a != t {
+            note_divergence(format!("reset({k}, {r}, {b}): ReedSolomonEncoder -> {a:?}, DefaultRateEncoder<DefaultEngine> -> {t:?}"));
+        }
+        a
+    }
+    fn into_work(self: Box<Self>) -> Option<EncoderWork> {
+        None
+    }
+}
+
+/// `ReedSolomonDecoder` plus the codec it is documented to be, driven by the same calls.
+struct RsDecTwin {
+    rs: ReedSolomonDecoder,
+    twin: DefaultRateDecoder<DefaultEngine>,
+}
+
+impl DynDecoder for RsDecTwin {
+    fn add_flaky(&mut self, is_rec: bool, index: usize, shard: &Flaky) -> Result<(), Error> {
+        let copy = shard.fresh_copy();
+        let (a, b) = if is_rec {
+            (self.rs.add_recovery_shard(index, shard), simcore::countalloc::unmeasured(|| self.twin.add_recovery_shard(index, &copy)))
+        } else {
+            (self.rs.add_original_shard(index, shard), simcore::countalloc::unmeasured(|| self.twin.add_original_shard(index, &copy)))
+        };
+        if a != b {
+            note_divergence(format!("add of an impure shard at {index}: ReedSolomonDecoder -> {a:?}, DefaultRateDecoder<DefaultEngine> -> {b:?}"));
+        }
+        a
+    }
+    fn add_original(&mut self, index: usize, shard: &[u8]) -> Result<(), Error> {
+        let a = self.rs.add_original_shard(index, shard);
+        let b = simcore::countalloc::unmeasured(|| self.twin.add_original_shard(index, shard));
+        if a != b {
+            note_divergence(format!("add_original_shard({index}): ReedSolomonDecoder -> {a:?}, DefaultRateDecoder<DefaultEngine> -> {b:?}"));
+        }
+        a
+    }
+    fn add_recovery(&mut self, index: usize, shard: &[u8]) -> Result<(), Error> {
+        let a = self.rs.add_recovery_shard(index, shard);
+        let b = simcore::countalloc::unmeasured(|| self.twin.add_recovery_shard(index, shard));
+        if a != b {
+            note_divergence(format!("add_recovery_shard({index}): ReedSolomonDecoder -> {a:?}, DefaultRateDecoder<DefaultEngine> -> {b:?}"));
+        }
+        a
+    }
+    fn decode(&mut self) -> Result<DecoderResult<'_>, Error> {
+        let Self { rs, twin } = self;
+        let b: Result<Vec<(usize, Vec<u8>)>, Error> = simcore::countalloc::unmeasured(|| twin.decode().map(|res| res.restored_original_iter().map(|(i, s)| (i, s.to_vec())).collect()));
+        let a = rs.decode();
+        match (&a, &b) {
+            (Ok(x), Ok(y)) => {
+                // (bounded: an iterator that never ends is the result probe's business)
+                if simcore::countalloc::unmeasured(|| x.restored_original_iter().take(y.len() + 1).map(|(i, s)| (i, s.to_vec())).collect::<Vec<_>>() != *y) {
+                    note_divergence("decode: ReedSolomonDecoder and DefaultRateDecoder<DefaultEngine> restore different shards".into());
+                }
+            }
+            (Err(x), Err(y)) if x == y => {}
+            _ => note_divergence(format!("decode: ReedSolomonDecoder -> {:?}, DefaultRateDecoder<DefaultEngine> -> {:?}", a.as_ref().map(|_| "Ok"), b.as_ref().map(|_| "Ok"))),
+        }
+        a
+    }
+    fn reset(&mut self, k: usize, r: usize, b: usize) -> Result<(), Error> {
+        let a = self.rs.reset(k, r, b);
+        let t = simcore::countalloc::unmeasured(|| self.twin.reset(k, r, b));
+        if a != t {
+            note_divergence(format!("reset({k}, {r}, {b}): ReedSolomonDecoder -> {a:?}, DefaultRateDecoder<DefaultEngine> -> {t:?}"));
+        }
+        a
+    }
+    fn into_work(self: Box<Self>) -> Option<DecoderWork> {
+        None
+    }
+}
+
 fn dec_new_t<E: MkEngine, T: RateDecoder<E> + 'static>(
     k: usize,
     r: usize,
@@ -540,7 +718,18 @@ pub fn dec_new(
     work: Option<DecoderWork>,
 ) -> Result<Box<dyn DynDecoder>, Error> {
     match kind.layer {
-        Layer::Rs => Ok(Box::new(ReedSolomonDecoder::new(k, r, b)?)),
+        Layer::Rs => {
+            let rs = ReedSolomonDecoder::new(k, r, b);
+            let twin = DefaultRateDecoder::new(k, r, b, DefaultEngine::new(), None);
+            if rs.as_ref().err() != twin.as_ref().err() {
+                note_divergence(format!("new({k}, {r}, {b}): ReedSolomonDecoder -> {:?}, DefaultRateDecoder<DefaultEngine> -> {:?}", rs.as_ref().map(|_| ()), twin.as_ref().map(|_| ())));
+            }
+            match (rs, twin) {
+                (Ok(rs), Ok(twin)) => Ok(Box::new(RsDecTwin { rs, twin })),
+                (Ok(rs), Err(_)) => Ok(Box::new(rs)),
+                (Err(e), _) => Err(e),
+            }
+        }
         Layer::Default if via_rate(k, r, b) => with_engine!(kind.engine, E => dec_new_r::<E, DefaultRate<E>>(k, r, b, work)),
         Layer::High if via_rate(k, r, b) => with_engine!(kind.engine, E => dec_new_r::<E, HighRate<E>>(k, r, b, work)),
         Layer::Low if via_rate(k, r, b) => with_engine!(kind.engine, E => dec_new_r::<E, LowRate<E>>(k, r, b, work)),
